@@ -3,7 +3,7 @@
     Model: AnalysisDefs.v (faithful transcription of the classification core of src/analyser.cpp);
     executable specification: AnalysisSpec.v (the same predicate is evaluated on the real AnalyserModel). *)
 From Coq Require Import List Bool Arith Permutation.
-From LC Require Import AnalysisDefs AnalysisSpec AnalysisProofs AnalysisWfProofs AnalysisOwnProofs AnalysisRenameProofs AnalysisWitness.
+From LC Require Import AnalysisDefs AnalysisSpec AnalysisProofs AnalysisWfProofs AnalysisOwnProofs AnalysisRenameProofs AnalysisConfluenceProofs AnalysisWitness.
 Import ListNotations.
 
 (** ** Termination of the do/while over mInternalEquations *)
@@ -108,6 +108,29 @@ Theorem C05_rename_invariant : forall (f g : nat -> nat),
 Proof. exact AnalysisRenameProofs.analyse_rename. Qed.
 Print Assumptions C05_rename_invariant.
 
+(** pass1_confluent: the first pass (sweeps with checkNlaSystems = false until nothing changes) is confluent: from
+    the state in which the analyser enters the loop, whatever the order in which mInternalEquations is swept, the
+    pass ends with the same variables known (typed) and the same variables indexed.  (Which equation computes a
+    variable, and hence its exact type, may still differ when two equations compete for it: witness below.) *)
+Theorem C05_pass1_confluent : forall s ivs0 es0 es' fuel fuel' stA esA stB esB,
+  build s = Some (ivs0, es0) -> Permutation es0 es' ->
+  let ivs := vs_ivs (analyse_asts s ivs0 es0) in
+  loop s fuel 0 false (mkCs ivs 0 0) es0 = Some (stA, esA) ->
+  loop s fuel' 0 false (mkCs ivs 0 0) es' = Some (stB, esB) ->
+  forall p, is_known (cs_ivs stA) p = is_known (cs_ivs stB) p /\
+            has_index (geti (cs_ivs stA) p) = has_index (geti (cs_ivs stB) p).
+Proof. exact AnalysisConfluenceProofs.pass1_confluent_analysis. Qed.
+Print Assumptions C05_pass1_confluent.
+
+(** ... the types given by the first pass are NOT order independent ("pass1_confluent with equal types" of the
+    design is refuted): same system, equations swapped, x is a true constant or a variable-based constant. *)
+Theorem C05_pass1_types_refuted :
+  same_system_reordered order_a order_b /\
+  types_after_first_pass order_a = Some [VCompTrue; VInitialised] /\
+  types_after_first_pass order_b = Some [VCompVarBased; VInitialised].
+Proof. split; [exact (proj1 AnalysisWitness.order_witness)|exact AnalysisWitness.pass1_types_witness]. Qed.
+Print Assumptions C05_pass1_types_refuted.
+
 (** The classification is NOT invariant under re-ordering of the equations (second pass is greedy)... *)
 Theorem C05_classification_perm_invariant_refuted :
   exists s s', same_system_reordered s s' /\
@@ -119,9 +142,7 @@ Print Assumptions C05_classification_perm_invariant_refuted.
    (first_pass_complete s = Some true) then every re-ordering of the equations has the same classification.
    Evidence: exhaustive over all one-component systems with <= 4 classes and <= 3 equations / <= 3 classes and <= 4
    equations drawn from 5 shapes (ocaml/analysis/driver.ml: search; 0 counter-examples among 8202 + 1630 order-dependent
-   systems), and every generated group of every run (checks/c05.py).
-   NOT PROVED: pass1_confluent (the set of variables typed by the first pass does not depend on the order in which
-   mInternalEquations is swept). *)
+   systems), and every generated group of every run (checks/c05.py). *)
 
 (** ... nor under a renaming of the variables of ONE component, although that is a consistent renaming of the
     document (the isolation test variableOnLhsRhs compares names across components). *)
